@@ -292,3 +292,8 @@ HARNESSES.append(
             stubs=["fake Redis server"]))
 ASSUMPTIONS = ["virtual time: timers fire exactly at their deadline; the 1 ms polling of the in-memory consumer runs concretely",
                "every path is one ordering class of timer events, decided by z3 over the symbolic durations"]
+
+from engine.harness import borrowed  # noqa: E402
+HARNESSES.append(borrowed("c05", "H05-mem", "H09-delayed-liveness"))      # a due delayed message is picked up while a slot is free
+HARNESSES.append(borrowed("c11", "H11-router", "H09-routers"))            # every included router's actors are served
+HARNESSES.append(borrowed("c11", "H11-worker", "H09-routers-worker"))
